@@ -41,6 +41,15 @@ def _subst(e, env, pnames):
     return '?' + k
 
 
+def _is_assert(blk):
+    for ev in blk['ev']:
+        if ev['k'] == 'call':
+            c = strip(ev['e'][1])
+            if c and c[0] == 'f' and c[1] == '__assert_fail':
+                return True
+    return False
+
+
 def summary(g, max_paths=64):
     if g.nocfg:
         return None
@@ -81,6 +90,13 @@ def summary(g, max_paths=64):
             continue
         succ = [s for s in blk['succ'] if s is not None]
         c = blk.get('cond')
+        if len(succ) == 2 and c is not None:
+            # assert(c) compiled in: the failing arm is not behaviour; follow the arm where the assertion holds and record no
+            # path condition, so summaries agree with and without NDEBUG
+            dead = [s for s in succ if _is_assert(g.blocks[s])]
+            if len(dead) == 1:
+                stack.append(([s for s in succ if s not in dead][0], env, pc, seen))
+                continue
         if len(succ) == 2 and c is not None:
             cs = _subst(c, env, pnames)
             stack.append((succ[0], env, pc + ((cs, True),), seen))
